@@ -116,10 +116,29 @@ def run(ctx):
                         k, v = kv.split('='); tot[k] = tot.get(k, 0) + int(v)
                 elif ln.startswith('DIVERGE'):
                     ctx.tie_broken.append('correspondence (%s): %s' % (c, ln[:300]))
+            # life cycle: for every object that was built (no overflow, no exception) the events -- node obtained, elements of
+            # the member array built, [clone / move into another allocator], elements destroyed, node given back -- must be
+            # JointExc.jx_case's (C11_every_element_destroyed_exactly_once, C11_elements_destroyed_before_the_block_is_freed)
+            life = [ln for ln in out.stdout.split('\n') if ln.startswith('j ') and ' =' in ln and 'ctor=ok' in ln
+                    and ln.split()[7] in ('none', 'reset', 'clone', 'move') and ln.split()[6] == '-1']
+            rl = subprocess.run([rexe, 'exc'], input='\n'.join(life) + '\n', stdout=subprocess.PIPE, text=True).stdout
+            for ln in rl.split('\n'):
+                if ln.startswith('SUMMARY'):
+                    for kv in ln.split()[1:]:
+                        k, v = kv.split('=')
+                        if k == 'joint_event_lists':
+                            tot['lifecycles'] = tot.get('lifecycles', 0) + int(v)
+                        elif k == 'diverged':
+                            tot['diverged'] = tot.get('diverged', 0) + int(v)
+                elif ln.startswith('DIVERGE'):
+                    ctx.tie_broken.append('correspondence (life cycle, %s): %s' % (c, ln[:300]))
+                    if len(ctx.violations) < 3:
+                        case = ln.split('::')[1].split(' =')[0].strip()
+                        ctx.violation('%s/%s' % (case, c), 'C11 fails on the implementation: the elements of the object are not built once, destroyed once (first to last) and the block freed afterwards: %s' % ln[8:300], dict(harness='h_joint.cpp', config=c, input=case))
     ctx.tie_broken = ctx.tie_broken[:6]
     ctx.cov.update(dict(
-        tie=dict(kind='Exec lock-step: offsets of the three member joint_arrays (size / value / initializer-list / range constructors) and of raw joint_allocator requests, capacity_left, leaf request/release parameters, clone request size compared with Joint.jstep',
-                 configs=['base', 'dbg8'], cases=tot.get('total', 0), overflows=tot.get('overflows', 0), exact_fits=tot.get('exact_fits', 0), clones=tot.get('clones', 0), divergences=tot.get('diverged', 0)),
+        tie=dict(kind='Exec lock-step: offsets of the three member joint_arrays (size / value / initializer-list / range constructors) and of raw joint_allocator requests, capacity_left, leaf request/release parameters, clone request size compared with Joint.jstep; life cycle of every object that was built (node obtained, elements built, clone / move, elements destroyed first to last, node given back) compared event by event with JointExc.jx_case',
+                 configs=['base', 'dbg8'], cases=tot.get('total', 0), overflows=tot.get('overflows', 0), exact_fits=tot.get('exact_fits', 0), clones=tot.get('clones', 0), lifecycles_compared=tot.get('lifecycles', 0), divergences=tot.get('diverged', 0)),
         evaluations=n, distinct_nontrivial=len(set(lines)),
         rule='seeded member layouts (char / 8-byte / 16-byte-aligned elements, counts 0..17, raw requests of sizes 0..24 and alignments 1..16) with additional sizes from 0 through one short of, exactly at and above what the layout needs, object addresses = 0 and 8 mod 16; followed by reset, = nullptr, clone, move-with-allocator or swap; distinct = distinct case lines'))
     ctx.samples += lines[:3]
